@@ -54,10 +54,13 @@ func MultiFilePackage(pkg, goName string) (types, service, unrelated *spec.File)
 	service.Messages = []*spec.Message{
 		{Name: "BarsReq", Fields: []*spec.Field{spec.F("symbols", 1, spec.String).Rep(), spec.FM("tagged", 2, "."+pkg+".Tagged")}},
 		{Name: "BarsResp", Fields: []*spec.Field{spec.FM("bars", 1, "."+pkg+".BarList").MapOf(spec.String), spec.F("next_page_token", 2, spec.String), spec.FM("outer", 3, "."+pkg+".Outer")}},
+		// root map unwrap whose value type (declared in the other file) unwraps again
+		{Name: "BarsByKey", Fields: []*spec.Field{spec.FM("data", 1, "."+pkg+".BarList").MapOf(spec.String).With(func(a *spec.Ann) { a.Unwrap = true })}},
 	}
 	service.Services = []*spec.Service{
 		{Name: "MarketService", BasePath: spec.S("/market"), Methods: []*spec.Method{{Name: "GetBars", In: "." + pkg + ".BarsReq", Out: "." + pkg + ".BarsResp", HTTP: &spec.HTTP{Path: "/bars", Verb: 2}}}},
-		{Name: "SecondService", BasePath: spec.S("/second"), Methods: []*spec.Method{{Name: "GetTagged", In: "." + pkg + ".BarsReq", Out: "." + pkg + ".Tagged", HTTP: &spec.HTTP{Path: "/tagged", Verb: 2}}}},
+		{Name: "SecondService", BasePath: spec.S("/second"), Methods: []*spec.Method{{Name: "GetTagged", In: "." + pkg + ".BarsReq", Out: "." + pkg + ".Tagged", HTTP: &spec.HTTP{Path: "/tagged", Verb: 2}},
+			{Name: "GetByKey", In: "." + pkg + ".BarsReq", Out: "." + pkg + ".BarsByKey", HTTP: &spec.HTTP{Path: "/by-key", Verb: 2}}}},
 	}
 	upkg := pkg + "x"
 	unrelated = &spec.File{Path: "multi/" + goName + "x/unrelated.proto", Package: upkg, GoImport: "lab/gen/" + goName + "x", GoName: goName + "x"}
